@@ -12,7 +12,7 @@
      T <sizeT> <n> <align> <ans>    the typed overload alignedMalloc<T>(n, align)  -> null|ptr=<p> req=<bytes>,<align>
      W <s|v|i> <fail> <op>...       as V, element type std::string / std::vector<int> / instrumented (sizeof 32/24/16)
      V <sizeT> <fail> <op>...       two AlignedVector<T> (a, b) over the bump back end
-                                    ops  pb:<t>:<x> rs:<t>:<n>:<x> rv:<t>:<n> sh:<t> as:<t>:<n>:<x> cl:<t> sw
+                                    ops  pb:<t>:<x> eb:<t>:<n>:<x> (emplace_back) rs:<t>:<n>:<x> rv:<t>:<n> sh:<t> as:<t>:<n>:<x> cl:<t> sw
    <fail> = index of the back-end request that fails (-1: none). *)
 let zs = z_of_string
 let sz = string_of_z
@@ -53,7 +53,11 @@ let run_T sizeT n a ans =
   | AMAbort -> "abort"
 
 (* element sizes of the non-trivially-copyable element types of the W cases (x86-64 libstdc++) *)
-let sizeof_tag = function "s" -> zi 32 | "v" -> zi 24 | "i" -> zi 16 | t -> failwith ("bad element type " ^ t)
+let sizeof_tag = function "s" | "S" | "n" -> zi 32 | "v" | "I" | "y" -> zi 24 | "i" -> zi 16 | t -> failwith ("bad element type " ^ t)
+(* the value of the element built by emplace_back(args...): element types with a two-argument constructor
+   (std::string(n, ch), std::vector<int>(n, v), the instrumented element) encode (n, x); the others are built from enc(x) *)
+let multi_arg = ref false
+let emplace_value n x = if !multi_arg then 1000 + n * 26 + x else x
 
 let run_H fail ops =
   let w = ref { w_be = bump0 fail; w_live = []; w_mem = [] } in
@@ -95,6 +99,7 @@ let run_H fail ops =
 let tsel = function "a" -> false | "b" -> true | s -> failwith ("bad vector " ^ s)
 let parse_v tok = match String.split_on_char ':' tok with
   | ["pb"; t; x] -> VPush (tsel t, zs x)
+  | ["eb"; t; n; x] -> VEmplaceBack (tsel t, zi (emplace_value (int_of_string n) (int_of_string x)))
   | ["rs"; t; n; x] -> VResize (tsel t, zs n, zs x)
   | ["rv"; t; n] -> VReserve (tsel t, zs n)
   | ["sh"; t] -> VShrink (tsel t)
@@ -130,8 +135,8 @@ let () =
         | ["P"; p; a] -> sz (align_ptr (zs p) (zs a))
         | ["S"; a] -> if assert_ok (zs a) then "ok" else "abort"
         | "H" :: fail :: ops -> run_H (zs fail) ops
-        | "V" :: s :: fail :: ops -> run_V (zs s) (zs fail) ops
-        | "W" :: tag :: fail :: ops -> run_V (sizeof_tag tag) (zs fail) ops
+        | "V" :: s :: fail :: ops -> multi_arg := false; run_V (zs s) (zs fail) ops
+        | "W" :: tag :: fail :: ops -> multi_arg := List.mem tag ["S"; "I"; "i"]; run_V (sizeof_tag tag) (zs fail) ops
         | ["A"] -> "addr=1 eq=1 ne=0 rebind=1 max=1 hint=ok hint_len=length_error stack=1"
         | ["T"; s; n; a; ans] -> run_T (zs s) (zs n) (zs a) ans
         | _ -> "badcase"
